@@ -233,7 +233,31 @@ async def drive_connection(st, attempts, probe_n):
     if state["closed"] is not None:
         auth_frames.append(["CLOSE", state["closed"]])
     return {"challenge": state["challenge"], "frames": auth_frames, "open": state["closed"] is None, "consumed": state["consumed"],
-            "probes": probes, "first": frames[0] if frames else None}
+            "probes": probes, "first": frames[0] if frames else None, "raw": frames}
+
+
+async def drive_raw(st, messages, clocks=None):
+    """send the given frames in order through web.start_client; -> (frames the relay sent, close code or None)"""
+    import falcon
+    from nostr_relay import web
+    frames, state = [], {"i": 0, "closed": None}
+
+    async def ws_send(text):
+        frames.append(json.loads(text))
+
+    async def ws_close(code=1000):
+        state["closed"] = code
+
+    async def ws_recv():
+        if state["i"] >= len(messages):
+            raise falcon.WebSocketDisconnected()
+        m = messages[state["i"]]
+        if clocks:
+            env.set_clock(clocks[state["i"]])
+        state["i"] += 1
+        return json.dumps(m)
+    await web.start_client(st, ws_send, ws_recv, ws_close, Quiet(), rate_limiter=NullLimiter(), remote_addr="1.2.3.4")
+    return frames, state["closed"]
 
 
 PALETTE = ["validA", "validB", "validC", "badsig", "replayed", "stale", "old", "shorttag", "notdict", "wrongkind", "substring"]
